@@ -1,0 +1,1 @@
+//! Verification hooks: whole-collector harness (cargo feature `mmtk_verif`; add-only wrappers).
